@@ -3,7 +3,7 @@
 From Coq Require Import List NArith Bool Lia.
 From Coq Require Import ZifyN ZifyNat ZifyBool.
 From Verif Require Import Common.Util Staker.Model Staker.Base Staker.Lists Staker.Inv Staker.RList Staker.Inv2
-  Staker.ProofsStep Staker.ProofsUser Staker.ProofsUser2.
+  Staker.ProofsStep Staker.ProofsUser Staker.ProofsUser2 Staker.ProofsHist.
 Import ListNotations.
 Open Scope N_scope.
 
@@ -262,16 +262,15 @@ Proof.
   - intros H. inversion H; subst. apply N.ltb_ge in E. assert (x = 0) by lia. subst. rewrite N.add_0_r, w_glob_id. auto.
 Qed.
 
-Lemma exit_step s la lq a v eb s' :
+Lemma exit_step s la lq a v eb s2a ve s2b ae s' :
   Full s la lq -> getv s a = Some v -> v_status v = StatusActive -> v_exit v = Some eb -> eb <= blk s ->
-  (s2 <- (r <- svc_exit_validator a s;; let '(s2a, ve) := r in let '(s2b, ae) := aggs_exit a s2a in apply_exit ve ae s2b);; Ok s2) = Ok s' ->
+  svc_exit_validator a s = Ok (s2a, ve) -> aggs_exit a s2a = (s2b, ae) -> apply_exit ve ae s2b = Ok s' ->
   exists l1 l2, la = l1 ++ a :: l2 /\ Full s' (l1 ++ l2) lq /\
     (forall b x, b <> a -> getv s b = Some x -> exists x', getv s' b = Some x' /\ core x' = core x) /\
     exits s' = exits s /\ blk s' = blk s /\ mbp s' = mbp s.
 Proof.
-  intros [Hwf Hi HA H2] Hv Hact Hex Heb H. pose proof Hi as [I1 I2 I3 I4 I5 I6 I7].
-  bstep H s2 H0. inversion H; subst s2; clear H. rename H0 into H.
-  bstep H r Hr. destruct r as [s2a ve]. unfold svc_exit_validator in Hr.
+  intros [Hwf Hi HA H2] Hv Hact Hex Heb Hr Hae H. pose proof Hi as [I1 I2 I3 I4 I5 I6 I7].
+  unfold svc_exit_validator in Hr.
   bstep Hr v0 Hv0. unfold get_existing in Hv0. apply of_opt_ok in Hv0. assert (v0 = v) by congruence. subst v0.
   unfold v_exit_now in Hr. bstep Hr r1 Hrm. destruct r1 as [s1 e1]. inversion Hr; subst s2a ve; clear Hr.
   set (v1 := set_status StatusExit (set_amounts 0 0 0 (v_locked v) (v_withdrawable v + v_queued v) 0 v)) in *.
@@ -285,7 +284,7 @@ Proof.
   set (sr := rl_remove a s1) in *.
   assert (R : ren_only s1 sr) by apply rl_remove_only.
   destruct (same2_ren_only_except _ _ R) as [E1 [E2 [E3 [E4 [E5 E6]]]]].
-  unfold aggs_exit in H. cbn zeta in H.
+  unfold aggs_exit in Hae. inversion Hae; subst s2b ae; clear Hae.
   assert (Eag : get_agg sr a = get_agg s a).
   { unfold get_agg. rewrite E2, <- (Eg _ aggs). reflexivity. }
   rewrite Eag in H. set (ag := get_agg s a) in *.
@@ -587,4 +586,184 @@ Proof.
       * unfold sf. cbn. cbn [v_weight set_prev v1 set_start set_status set_amounts]. lia.
       * unfold sf. cbn [vals w_glob]. cbn [v_weight set_prev v1 set_start set_status set_amounts]. lia.
   - intros x y Hne Hy. destruct (Hrec x y Hne Hy) as [y3 [Hy3 [Ec _]]]. exists y3. rewrite Gvf. auto.
+Qed.
+
+Lemma activate_n_ok b mx n : forall s la lq s',
+  Full s la lq -> activate_n n b mx s = Ok s' ->
+  exists la' lq', Full s' la' lq' /\ blk s' = blk s /\ mbp s' = mbp s /\
+    (forall x, In x la -> In x la') /\
+    (forall x y, In x la -> getv s x = Some y -> exists y', getv s' x = Some y' /\ core y' = core y).
+Proof.
+  induction n as [|k IH]; intros s la lq s' HF H.
+  - cbn in H. inversion H; subst. exists la, lq. split; auto. split; auto. split; auto. split; auto. intros x y _ Hy. eauto.
+  - cbn [activate_n] in H. bstep H s1 Hs1.
+    destruct (activate_step b mx s la lq s1 HF Hs1) as [h [lq1 [F1 [Hin [Hnla [B1 [M1 C1]]]]]]].
+    destruct (IH s1 (la ++ [h]) lq1 s' F1 H) as [la' [lq' [F' [B' [M' [Sub' C']]]]]].
+    exists la', lq'. split; auto. split; [congruence|]. split; [congruence|]. split.
+    + intros x Hx. apply Sub', in_or_app. auto.
+    + intros x y Hx Hy. assert (Hne : x <> h) by (intros ->; contradiction).
+      destruct (C1 x y Hne Hy) as [y1 [Hy1 Ec1]]. destruct (C' x y1 (in_or_app _ _ _ (or_introl Hx)) Hy1) as [y2 [Hy2 Ec2]].
+      exists y2. split; auto. congruence.
+Qed.
+
+(* ------------------------------------------------------------------ the whole transition *)
+
+Lemma Full_LoopInv s la lq : Full s la lq -> LoopInv renewal0 s la lq.
+Proof.
+  intros [Hwf [I1 I2 I3 I4 I5 I6 I7] HA H2]. destruct (proj1 (Inv2_split s) H2) as [H2' Hlw].
+  constructor; cbn; auto; lia.
+Qed.
+
+Lemma apply_epoch_transition_ok c b t s la lq s' :
+  Full s la lq ->
+  (forall a, In a (tr_renewals t) -> is_active s a) ->
+  (tr_exit t <> 0 -> exists v eb, getv s (tr_exit t) = Some v /\ v_status v = StatusActive /\ v_exit v = Some eb /\ eb <= blk s) ->
+  NoDup (tr_evictions t) -> (forall a, In a (tr_evictions t) -> evictable_now s a /\ (tr_exit t = 0 \/ a <> tr_exit t)) ->
+  apply_epoch_transition c b t s = Ok s' ->
+  exists la' lq', Full s' la' lq' /\ blk s' = blk s /\
+    (forall x, In x la -> x <> tr_exit t -> In x la').
+Proof.
+  intros HF Hren Hexit Hnd Hev H. unfold apply_epoch_transition in H.
+  bstep H r1 Hr1. destruct r1 as [s1 acc]. bstep H s2 Hs2.
+  destruct (apply_renewals_ok _ _ _ _ _ _ _ (Full_LoopInv _ _ _ HF) Hren Hr1) as [HL [Hfr Hst]].
+  destruct (apply_renewal_closes _ _ _ _ _ HL Hs2) as [W2 [I2 [A2 [J2 [G2 [X2 B2]]]]]].
+  assert (F2 : Full s2 la lq) by (constructor; auto).
+  assert (St2 : forall x y, getv s x = Some y -> exists y', getv s2 x = Some y' /\ v_status y' = v_status y /\ v_exit y' = v_exit y).
+  { intros x y Hy. destruct (Hst x y Hy) as [y' [Hy' E]]. exists y'. rewrite G2. auto. }
+  assert (Bs2 : blk s2 = blk s).
+  { rewrite B2. clear - Hr1. revert Hr1. generalize renewal0. generalize s. induction (tr_renewals t) as [|a l IH]; intros s0 acc0 H.
+    - cbn in H. inversion H; auto.
+    - cbn [apply_renewals] in H. bstep H r1 Hr1. destruct r1 as [[sa ar] dw]. bstep H acc1 Ha1. bstep H r2 Hr2. destruct r2 as [sb vr]. bstep H acc2 Ha2.
+      rewrite (IH _ _ H). pose proof (rl_remove_only a sb) as R. rewrite R. cbn.
+      unfold svc_renew in Hr2. bstep Hr2 v Hv. bstep Hr2 r Hr. destruct r. inversion Hr2; subst. cbn.
+      unfold aggs_renew in Hr1. bstep Hr1 r Hr'. destruct r. inversion Hr1; subst. reflexivity. }
+  bstep H s3 Hs3. bstep H s4 Hs4.
+  (* exit *)
+  assert (E3 : exists la3, Full s3 la3 lq /\ blk s3 = blk s2 /\ (forall x, In x la -> x <> tr_exit t -> In x la3) /\
+             (forall x y, (tr_exit t = 0 \/ x <> tr_exit t) -> getv s2 x = Some y -> exists y', getv s3 x = Some y' /\ core y' = core y)).
+  { destruct (tr_exit t =? 0) eqn:Ez.
+    - inversion Hs3; subst s3. exists la. split; auto. split; auto. split; auto. intros x y _ Hy. eauto.
+    - apply N.eqb_neq in Ez. destruct (Hexit Ez) as [v [eb [Hv [Hact [Hex Heb]]]]].
+      destruct (St2 _ _ Hv) as [v2 [Hv2 [Es2 Ex2]]].
+      bstep Hs3 r Hr. destruct r as [s2a ve]. destruct (aggs_exit (tr_exit t) s2a) as [s2b ae] eqn:Hae.
+      destruct (exit_step s2 la lq (tr_exit t) v2 eb s2a ve s2b ae s3 F2 Hv2) as [l1 [l2 [El [F3 [C3 [X3 [B3 M3]]]]]]]; auto; try congruence; try lia.
+      exists (l1 ++ l2). split; auto. split; auto. split.
+      + intros x Hx Hne. rewrite El in Hx. apply in_app_iff in Hx as [Hx|[Hx|Hx]]; [apply in_or_app; auto|congruence|apply in_or_app; auto].
+      + intros x y [Hz|Hne] Hy; [congruence|]. apply (C3 x y Hne Hy). }
+  destruct E3 as [la3 [F3 [B3 [Sub3 C3]]]].
+  (* evictions *)
+  destruct (apply_evictions_ok c b (tr_evictions t) s3 la3 lq s4) as [[lq4 F4] [B4 [M4 St4]]]; auto.
+  { exists lq. auto. }
+  { intros a Ha. destruct (Hev a Ha) as [[v [Hv [Hact Hex]]] Hne].
+    destruct (St2 _ _ Hv) as [v2 [Hv2 [Es2 Ex2]]]. destruct (C3 a v2 Hne Hv2) as [v3 [Hv3 Ec]]. cf Ec.
+    exists v3. split; auto. split; congruence. }
+  (* activations *)
+  destruct (activate_n_ok b (get_mbp s4) (N.to_nat (tr_count t)) s4 la3 lq4 s' F4 H) as [la' [lq' [F' [B' [M' [Sub' _]]]]]].
+  exists la', lq'. split; auto. split; [congruence|]. intros x Hx Hne. apply Sub', Sub3; auto.
+Qed.
+
+(* ------------------------------------------------------------------ what compute_epoch_transition returns *)
+
+Lemma update_group_filter_sub s b l r : update_group_filter s b l = Ok r -> forall a, In a r -> In a l.
+Proof.
+  revert r. induction l as [|x t IH]; intros r H a Ha; cbn in H.
+  - inversion H; subst. contradiction.
+  - bstep H v Hv. bstep H r' Hr'. inversion H; subst. destruct (is_period_end v b && negb (is_some (v_exit v))).
+    + destruct Ha as [<-|Ha]; [left; auto|right; eauto].
+    + right; eauto.
+Qed.
+
+Lemma nodup_map_filter {A} (f : A -> N) (p : A -> bool) (l : list A) : NoDup (map f l) -> NoDup (map f (filter p l)).
+Proof.
+  induction l as [|x t IH]; cbn; intros H; [constructor|]. inversion H; subst. destruct (p x); cbn; auto.
+  constructor; auto. intros Hx. apply H2. apply in_map_iff in Hx as [y [E Hy]]. apply filter_In in Hy as [Hy _].
+  apply in_map_iff. exists y; auto.
+Qed.
+
+Lemma compute_facts c b s la lq t :
+  Full s la lq -> compute_epoch_transition c b s = Ok t ->
+  (forall a, In a (tr_renewals t) -> is_active s a) /\ tr_exit t = get_exit s b /\
+  NoDup (tr_evictions t) /\
+  (forall a, In a (tr_evictions t) -> evictable_now s a).
+Proof.
+  intros [Hwf Hi HA H2] H. unfold compute_epoch_transition in H.
+  bstep H ev Hev. bstep H ren Hren. inversion H; subst t; clear H. cbn [tr_renewals tr_exit tr_evictions].
+  split; [|split; [reflexivity|]].
+  - intros a Ha. unfold update_group in Hren. bstep Hren l Hl. destruct (j_ren _ H2) as [lr [R A]].
+    rewrite (rl_iterate_spec s lr l R Hl) in Hren. apply A. eapply update_group_filter_sub; eauto.
+  - destruct (negb (b =? 0) && (b mod c_evict_int c =? 0)); [|inversion Hev; subst; split; [constructor|intros a []]].
+    bstep Hev l Hl. inversion Hev; subst ev; clear Hev.
+    destruct (leader_group_is_active_list s la lq Hwf) as [r [Hr [Hm Hin]]]. rewrite Hr in Hl. inversion Hl; subst l.
+    split.
+    + apply nodup_map_filter. rewrite Hm. apply (wl_nodup _ _ _ (wf_a _ _ _ Hwf)).
+    + intros a Ha. apply in_map_iff in Ha as [[a' v] [Ea Hf]]. cbn in Ea. subst a'. apply filter_In in Hf as [Hf1 Hf2]. cbn in Hf2.
+      exists v. split; [apply Hin; auto|]. split.
+      * apply (wf_st _ _ _ Hwf a v (Hin a v Hf1)). rewrite <- Hm. apply in_map_iff. exists (a, v). auto.
+      * unfold evictable in Hf2. destruct (v_offline v); [|discriminate]. apply andb_true_iff in Hf2 as [_ F2].
+        destruct (v_exit v); [discriminate|reflexivity].
+Qed.
+
+(* ------------------------------------------------------------------ SyncPOS and the block step *)
+
+Lemma sync_pos_cases c b s s1 ac up :
+  sync_pos c b s = Ok (s1, ac, up) ->
+  s1 = s \/ exists t, compute_epoch_transition c b s = Ok t /\ apply_epoch_transition c b t s = Ok s1.
+Proof.
+  unfold sync_pos. intros H. destruct (b <? c_hayabusa c + c_tp c); [inversion H; auto|].
+  bstep H r Hr. destruct r as [sa activated].
+  assert (T : forall sx ax, transition_pos c b s = Ok (sx, ax) ->
+              (sx = s /\ ax = false) \/ exists t, compute_epoch_transition c b s = Ok t /\ apply_epoch_transition c b t s = Ok sx).
+  { intros sx ax Ht. unfold transition_pos in Ht.
+    destruct (negb (b mod c_epoch c =? 0)); [inversion Ht; auto|].
+    destruct (0 <? l_size (act s)); [inversion Ht; auto|].
+    destruct (l_size (que s) * 3 <? get_mbp s * 2); [inversion Ht; auto|].
+    bstep Ht t Hc. bstep Ht sy Ha. inversion Ht; subst. right. eauto. }
+  assert (Hk : forall sx ux, housekeep c b s = Ok (sx, ux) ->
+              sx = s \/ exists t, compute_epoch_transition c b s = Ok t /\ apply_epoch_transition c b t s = Ok sx).
+  { intros sx ux Hh. unfold housekeep in Hh. destruct (negb (b mod c_epoch c =? 0)); [inversion Hh; auto|].
+    bstep Hh t Hc. destruct (negb (has_updates t)); [inversion Hh; auto|].
+    bstep Hh sy Ha. bstep Hh u Hu. inversion Hh; subst. right. eauto. }
+  destruct (negb (0 <? l_size (act s)) && ((c_tp c =? 0) || ((b - c_hayabusa c) mod c_tp c =? 0))) eqn:Ec.
+  - apply andb_true_iff in Ec as [Ea _]. apply negb_true_iff in Ea. rewrite Ea in H. cbn [orb] in H.
+    assert (E2 : activated && negb activated = false) by (destruct activated; reflexivity). rewrite E2 in H.
+    inversion H; subst s1. destruct (T _ _ Hr) as [[-> _]|Hx]; auto.
+  - inversion Hr; subst sa activated. destruct (((0 <? l_size (act s)) || false) && negb false).
+    + bstep H r2 Hh. destruct r2. inversion H; subst. eapply Hk; eauto.
+    + inversion H; auto.
+Qed.
+
+Lemma Inv2_w_blk b s : blk s <= b -> Inv2 s -> Inv2 (w_blk b s).
+Proof.
+  intros Hb [H1 H2 H3 H4 H5 H6 H7 H8 H9 H10 H11]. constructor; auto.
+  - destruct H3 as [lr [R A]]. exists lr. split; [apply (RWF_ext s _ lr); try reflexivity; exact R|]. auto.
+  - intros b' a Hg Ha Hlt. apply (H4 b' a Hg Ha). cbn in Hlt. lia.
+Qed.
+
+Lemma Full_w_blk b s la lq : blk s <= b -> Full s la lq -> Full (w_blk b s) la lq.
+Proof.
+  intros Hb [Hwf [I1 I2 I3 I4 I5 I6 I7] HA H2]. constructor.
+  - apply (WF_same_vals s); auto.
+  - constructor; cbn; auto.
+  - apply (InvA_frame s); auto. apply kept_same_vals; reflexivity.
+  - apply Inv2_w_blk; auto.
+Qed.
+
+Theorem block_step_Full c s la lq : Full s la lq ->
+  exists la' lq', Full (step c s OBlock) la' lq' /\ forall x, In x la -> x <> get_exit s (blk s + 1) -> In x la'.
+Proof.
+  intros HF. unfold step. destruct (run_op c OBlock s) as [[s' x]| |] eqn:E; [|exists la, lq; auto|exists la, lq; auto].
+  cbn [run_op] in E. bstep E r Hr. destruct r as [[s1 ac] up]. inversion E; subst s' x; clear E.
+  set (b := blk s + 1) in *. set (s0 := w_blk b s) in *.
+  assert (F0 : Full s0 la lq) by (apply Full_w_blk; auto; unfold b; lia).
+  destruct (sync_pos_cases _ _ _ _ _ _ Hr) as [->|[t [Hc Ha]]]; [exists la, lq; auto|].
+  destruct (compute_facts c b s0 la lq t F0 Hc) as [Hren [Hex [Hnd Hev]]].
+  change (get_exit s0 b) with (get_exit s b) in Hex.
+  destruct (apply_epoch_transition_ok c b t s0 la lq s1 F0 Hren) as [la' [lq' [F' [_ Sub]]]]; auto.
+  - intros Hz. rewrite Hex in *. destruct (j_exit _ (f_2 _ _ _ HF) b (get_exit s b) eq_refl Hz) as [v [Hv [Hs He]]]; [unfold b; lia|].
+    exists v, b. repeat split; auto. cbn. lia.
+  - intros a Ha'. split; [apply Hev; auto|]. destruct (N.eq_dec (tr_exit t) 0) as [Hz|Hz]; [left; auto|right].
+    intros ->. destruct (Hev _ Ha') as [v [Hv [Hs He]]]. rewrite Hex in *.
+    destruct (j_exit _ (f_2 _ _ _ HF) b (get_exit s b) eq_refl Hz) as [v' [Hv' [_ He']]]; [unfold b; lia|].
+    change (getv s0 (get_exit s b)) with (getv s (get_exit s b)) in Hv. assert (v' = v) by congruence. subst v'. congruence.
+  - exists la', lq'. split; auto. intros x Hx Hne. apply Sub; auto. rewrite Hex. auto.
 Qed.
